@@ -308,6 +308,7 @@ type c10Runner struct {
 	deaths      map[int]string // case id -> stderr signature of a child that died during it (reproduced)
 	hangs       map[int]bool
 	flaky       []string
+	slowOnce    int
 	childRuns   int
 }
 
@@ -341,7 +342,7 @@ func (rn *c10Runner) runChild(cases []c10Case, tag string) (inflight int, timedO
 	rig.Must(os.WriteFile(bpath, bj, 0o644))
 	cmd := exec.Command(rig.Self(), "c10-batch", bpath, rpath)
 	var errBuf bytes.Buffer
-	cmd.Stderr = &limitedWriter{w: &errBuf, n: 1 << 20}
+	cmd.Stderr = &limitedWriter{w: &errBuf, n: 16 << 20}
 	cmd.Stdout = nil
 	cmd.Env = append(os.Environ(), "GOTRACEBACK=all", "GOMAXPROCS=2")
 	cmd.SysProcAttr = &syscall.SysProcAttr{Setpgid: true}
@@ -390,8 +391,11 @@ func (rn *c10Runner) runChild(cases []c10Case, tag string) (inflight int, timedO
 	if sig == "" && werr != nil && !timedOut {
 		sig = "child exit: " + werr.Error()
 	}
+	if loc := c10CrashRe.FindIndex(eb); loc != nil {
+		eb = eb[loc[0]:]
+	}
 	if len(eb) > 3000 {
-		// keep the head (panic message + first frames)
+		// keep the panic message + first frames
 		eb = eb[:3000]
 	}
 	if inflight < 0 && werr != nil {
@@ -440,9 +444,12 @@ func (rn *c10Runner) runBatch(cases []c10Case, tag string) {
 		in2, to2, sig2, tail2 := rn.runChild(one, tag+"r")
 		rn.mu.Lock()
 		switch {
+		case in2 < 0 && timedOut:
+			// the isolated attempt finished within the time limit and delivered a verdict: the first timeout was machine load
+			rn.slowOnce++
 		case in2 < 0:
-			rn.flaky = append(rn.flaky, fmt.Sprintf("case %d (%s %s@%d): first attempt %s, second attempt completed", inflight, rest[idx].Kind, rest[idx].Region, rest[idx].Off,
-				map[bool]string{true: "timed out", false: "died: " + sig}[timedOut]))
+			rn.flaky = append(rn.flaky, fmt.Sprintf("case %d (%s %s@%d): first attempt died (%s | %s), second attempt completed", inflight, rest[idx].Kind, rest[idx].Region, rest[idx].Off,
+				sig, strings.ReplaceAll(tail, "\n", " | ")))
 		case to2 && timedOut:
 			rn.hangs[inflight] = true
 		case !to2 && !timedOut:
@@ -509,7 +516,7 @@ func c10(c *rig.Ctx) {
 	f1 := must(c10FixtureTables("tables-small", mk("tables-small"), r, 7, 3, 20))
 	plans = append(plans, tgtPlan{f1, anyFile, c10Plan{exhaustive: true, fieldInst: 3}})
 	// 2. larger table file (sampled)
-	f2 := must(c10FixtureTables("tables-large", mk("tables-large"), r, 260, 0, 90))
+	f2 := must(c10FixtureTables("tables-large", mk("tables-large"), r, 150, 0, 70))
 	plans = append(plans, tgtPlan{f2, kindIs("tablefile"), c10Plan{singles: S(100, 4000), bursts: S(60, 3000), truncs: S(60, 2000), fieldInst: S(8, 200)}})
 	// 3. snappy archive, in-memory index reader: exhaustive
 	f3 := must(c10FixtureArchive("archive-snappy", mk("archive-snappy"), r, 8, false, false, 20))
@@ -533,13 +540,13 @@ func c10(c *rig.Ctx) {
 		plans = append(plans, tgtPlan{f5, kindIs("archive"), c10Plan{singles: S(150, 3000), bursts: S(80, 2000), truncs: S(80, 1000), fieldInst: 0}})
 	}
 	// 6. chunk journal: 4 commits; journal file, manifest and index file
-	f6 := must(c10FixtureJournal("journal-small", mk("journal-small"), r, []int{3, 2, 3, 2}, 16))
+	f6 := must(c10FixtureJournal("journal-small", mk("journal-small"), r, []int{2, 2, 3, 2}, 12))
 	plans = append(plans, tgtPlan{f6, func(t c10Target) bool { return t.Kind == "journal" || t.Kind == "manifest" }, c10Plan{exhaustive: true, fieldInst: 3}})
 	plans = append(plans, tgtPlan{f6, kindIs("journalidx"), c10Plan{singles: S(25, 200), bursts: S(10, 100), truncs: S(20, 200), fieldInst: S(4, 30)}})
 	// 7. journal large enough for the writer to flush index metadata: reopen is served from journal.idx
 	f7 := must(c10FixtureJournal("journal-indexed", mk("journal-indexed"), r, []int{16500, 6, 5}, 3))
-	plans = append(plans, tgtPlan{f7, kindIs("journal"), c10Plan{singles: S(6, 400), bursts: S(3, 150), truncs: S(6, 300), fieldInst: S(2, 60)}})
-	plans = append(plans, tgtPlan{f7, kindIs("journalidx"), c10Plan{singles: S(8, 500), bursts: S(3, 200), truncs: S(6, 300), fieldInst: S(2, 60)}})
+	plans = append(plans, tgtPlan{f7, kindIs("journal"), c10Plan{singles: S(4, 400), bursts: S(2, 150), truncs: S(5, 300), fieldInst: S(2, 60)}})
+	plans = append(plans, tgtPlan{f7, kindIs("journalidx"), c10Plan{singles: S(6, 500), bursts: S(2, 200), truncs: S(5, 300), fieldInst: S(2, 60)}})
 
 	// cases: first the unmutated stores (the oracle must call them model-equal), then the faults
 	nextID := 0
@@ -763,6 +770,7 @@ func c10(c *rig.Ctx) {
 	}
 	c.Count("c10.journal_silent_rollback_to_previous_root_allowed", rollbacks)
 	c.Count("c10.child_processes", rn.childRuns)
+	c.Count("c10.timeouts_not_reproduced_in_isolation", rn.slowOnce)
 	for k, v := range msByFixture {
 		c.Count("c10.cpu_ms."+k, int(v))
 	}
